@@ -62,6 +62,19 @@ def r16_1(run):
         run.ob('R16.1', cr, site, '%s (written per relay) starts empty for every document' % w, ok, slot='reset:%s' % w,
                message='%s is filled by _create_router but not reset in _update_network_status: relays that left the consensus '
                        'or lost the flag stay in it' % w)
+    # a replacement document always replaces: the reset block may be skipped only for an empty payload (today: `if len(data):`),
+    # never depending on what the document says (a document listing no relay is a legitimate "every relay left")
+    dp = un.params[1] if len(un.params) > 1 else 'data'
+    for w, n in sorted(reset.items()):
+        if n not in g.real_nodes():
+            continue
+        for t, lab in g.guarded_by(n, lambda t: True):
+            a = t.ast
+            emptiness = dotted(a) == dp or (isinstance(a, ast.Call) and dotted(a.func) == 'len' and a.args and dotted(a.args[0]) == dp) or \
+                (isinstance(a, ast.Compare) and isinstance(a.left, ast.Call) and dotted(a.left.func) == 'len' and a.left.args and dotted(a.left.args[0]) == dp
+                 and const(a.comparators[0]) == 0)
+            run.ob('R16.1', un, a, 'the reset of %s is skipped for an empty payload at most' % w, emptiness, slot='reset-guard:%s' % w,
+                   message='_update_network_status resets %s only if %s: a replacement document for which that is false leaves the whole previous relay view in place' % (w, src(a)[:60]))
     # the previous document's relays are kept aside for identity reuse, not merged
     ok = 'self._old_routers' in reset and dotted(assign_to(reset['self._old_routers'].ast, 'self._old_routers')) == 'self.routers'
     run.ob('R16.1', un, un.node, 'the previous relay map is moved to _old_routers (identity reuse) before the reset', ok, slot='old-routers', message='_old_routers not taken from self.routers')
@@ -324,6 +337,7 @@ RULES = [
 from ..selftest import M  # noqa: E402
 FT, FP, FR = 'txtorcon/torstate.py', 'txtorcon/_microdesc_parser.py', 'txtorcon/router.py'
 MUTANTS = [
+    M('ok-only-document-skipped', FT, "        if len(data):\n            self._old_routers = self.routers", "        if len(data) and data.strip() != 'OK':\n            self._old_routers = self.routers", ['R16.1']),
     M('update-only-for-new', FT, "            router = Router(self.protocol)\n\n        self.routers[id_hex] = router\n        router.from_consensus = True\n        router.update(", "            router = Router(self.protocol)\n\n        self.routers[id_hex] = router\n        router.from_consensus = True\n        if router.id_hex is None:\n          router.update(", ['R16.2']),
     M('guards-not-reset', FT, "            self.guards = dict()\n            self.authorities = dict()\n", "            self.authorities = dict()\n", ['R16.1']),
     M('by-name-not-reset', FT, "            self.routers_by_name = dict()\n", "", ['R16.1']),
